@@ -28,7 +28,7 @@ SOURCES = [
 ]
 GEN_MOD = "Ampverif.Gen.C04"
 FLT_MOD = "Ampverif.GenFloat.C04"
-PROP_MODULES = ["Ampverif.Props.C04"]
+PROP_MODULES = ["Ampverif.Props.C04", "Ampverif.Props.C04Wigner"]
 MODEL_FILE = "Ampverif/Model/C04Frames.lean"
 MATRICES = ["RotZ", "RotY", "BoostZ"]
 MAX_REPLAYS = 4
@@ -97,6 +97,39 @@ def build_definitions():
 
     reals["PhiOf"] = ref_phi
     reals["ThetaOf"] = ref_theta
+    # compute_wigner_angles: alpha/beta/gamma as functions of the sliced entries W[i, j] of the Wigner
+    # rotation matrix (the slices are replaced by real symbols w<i><j>; that they slice exactly
+    # compute_wigner_rotation_matrix(...) is checked on every topology by the T2 correspondence)
+    from qrules.topology import create_isobar_topologies
+
+    from ampform.kinematics.angles import compute_wigner_angles
+    from ampform.kinematics.lorentz import create_four_momentum_symbols
+    from ampform.sympy._array_expressions import ArraySlice
+
+    wtop = create_isobar_topologies(3)[0]
+    wang = compute_wigner_angles(wtop, create_four_momentum_symbols(wtop), 1)
+    wigner_slices = {}
+    for sym, expr in wang.items():
+        kind = sym.name.split("_")[0]
+        repl = {}
+        for s in expr.atoms(ArraySlice):
+            idx = tuple(s.args[1])
+            if not (len(idx) == 3 and c04_ext._full_slice(idx[0]) and all(isinstance(k, sp.Integer) for k in idx[1:])):
+                raise core.Untranslatable(f"compute_wigner_angles: unexpected slice {idx!r}")
+            repl[s] = sp.Symbol(f"w{int(idx[1])}{int(idx[2])}", real=True)
+        e2 = expr.xreplace(repl)
+        names = sorted(v.name for v in repl.values())
+        wigner_slices[kind] = names
+        dn = "Wigner" + kind.capitalize()
+        defs.append(core.Definition(dn, names, tr(e2),
+                                    doc=f"compute_wigner_angles: {kind} = {e2} (w<i><j> = entry (i,j) of the Wigner rotation matrix)"))
+        fw = sp.lambdify([sp.Symbol(nm, real=True) for nm in names], e2, "numpy")
+
+        def refw(points, fw=fw):
+            with np.errstate(all="ignore"):
+                return [[float(fw(*pt))] for pt in points]
+
+        reals[dn] = refw
     # Wigner D¹ entries of the installed SymPy (index order +1, 0, -1)
     al, be, ga = sp.symbols("al be ga", real=True)
     for m, mn in D1_IDX:
@@ -147,12 +180,14 @@ def build_definitions():
                 if sp.im(d) != 0:
                     ok = False
     facts["sympy_D_is_phase_times_real_d_upto_j2"] = ok
+    facts["wigner_angle_slices"] = wigner_slices
     return defs, reals, facts
 
 
 EXPECTED_FACTS = {
     "RotZ_shape": [4, 4], "RotY_shape": [4, 4], "BoostZ_shape": [4, 4],
     "sympy_D_is_phase_times_real_d_upto_j2": True,
+    "wigner_angle_slices": {"alpha": ["w31", "w32"], "beta": ["w33"], "gamma": ["w13", "w23"]},
 }
 
 
@@ -209,6 +244,12 @@ def _points(name: str, rng, n: int):
         elif name == "ThetaOf":
             sp_ = [[0.0, 0.0, 1.0], [0.0, 0.0, -2.0], [1.0, 0.0, 0.0], [0.3, -0.4, 0.0]]
             pts.append(sp_[i] if i < len(sp_) else [rng.uniform(-3, 3) for _ in range(3)])
+        elif name in ("WignerAlpha", "WignerGamma"):
+            sp_ = [[0.0, 0.0], [1.0, 0.0], [-1.0, 0.0], [0.0, -0.5], [-0.3, -0.0]]
+            pts.append(sp_[i] if i < len(sp_) else [rng.uniform(-1, 1), rng.uniform(-1, 1)])
+        elif name == "WignerBeta":
+            sp_ = [[1.0], [-1.0], [0.0]]
+            pts.append(sp_[i] if i < len(sp_) else [rng.uniform(-1, 1)])
         else:  # D1 entries
             sp_ = [[0.0, 0.0, 0.0], [0.3, 0.0, 0.0], [0.0, math.pi, 0.0], [1.0, math.pi / 2, -2.0]]
             pts.append(sp_[i] if i < len(sp_) else [rng.uniform(-math.pi, math.pi), rng.uniform(0, math.pi),
@@ -257,6 +298,95 @@ def validate(chk: common.Check, defs, reals, rng, n: int):
 
 
 # ----------------------------------------------------------------------------- the check
+
+
+def wigner_oracle(chk: common.Check, rng, tier: str) -> dict:
+    """For every final state of the 3- and 4-body isobar topologies (+ relabellings): the real lambdified Wigner
+    matrix W on physical events is 1 (+) R with R orthogonal, det 1, and Rz(alpha)Ry(beta)Rz(gamma) built from the
+    real lambdified compute_wigner_angles equals spat(W)^T away from the gimbal-lock set."""
+    import itertools
+
+    import numpy as np
+    import sympy as sp
+    from qrules.topology import create_isobar_topologies
+
+    from ampform.kinematics.angles import compute_wigner_angles, compute_wigner_rotation_matrix
+    from ampform.kinematics.lorentz import create_four_momentum_symbols
+
+    g = np.random.default_rng(rng.getrandbits(63))
+    n_ev = {"quick": 40, "thorough": 400}[tier]
+    stats = {"matrices": 0, "events": 0, "worst_orthogonality": 0.0, "worst_euler": 0.0, "gimbal_skipped": 0,
+             "chain_lengths": {}}
+
+    def rz(a):
+        c, s = np.cos(a), np.sin(a)
+        z, o = np.zeros_like(a), np.ones_like(a)
+        return np.stack([np.stack([c, -s, z], -1), np.stack([s, c, z], -1), np.stack([z, z, o], -1)], -2)
+
+    def ry(a):
+        c, s = np.cos(a), np.sin(a)
+        z, o = np.zeros_like(a), np.ones_like(a)
+        return np.stack([np.stack([c, z, s], -1), np.stack([z, o, z], -1), np.stack([-s, z, c], -1)], -2)
+
+    tops = []
+    for n in (3, 4):
+        for top in create_isobar_topologies(n):
+            tops.append(top)
+            ids = sorted(top.outgoing_edge_ids)
+            perms = list(itertools.permutations(ids))[1:]
+            for pm in rng.sample(perms, 1 if tier == "quick" else 4):
+                tops.append(top.relabel_edges(dict(zip(ids, pm))))
+    for top in tops:
+        ids = sorted(top.outgoing_edge_ids)
+        momenta = create_four_momentum_symbols(top)
+        syms = [momenta[i] for i in ids]
+        # physical events: massive particles, generic momenta, total momentum NOT at rest (the chain does not need it)
+        masses = g.uniform(0.15, 1.2, size=len(ids))
+        p3 = g.normal(0.0, 0.8, size=(len(ids), n_ev, 3))
+        arrays = []
+        for k in range(len(ids)):
+            e = np.sqrt(masses[k] ** 2 + (p3[k] ** 2).sum(-1))
+            arrays.append(np.concatenate([e[:, None], p3[k]], axis=1))
+        for sid in ids:
+            w = compute_wigner_rotation_matrix(top, momenta, sid)
+            ang = compute_wigner_angles(top, momenta, sid)
+            f = sp.lambdify(syms, [w.doit(), *[ang[s].doit() for s in sorted(ang, key=lambda s: s.name)]], "numpy", cse=True)
+            with np.errstate(all="ignore"):
+                W, al, be, ga = f(*arrays)
+            W = np.asarray(W, dtype=float)
+            stats["matrices"] += 1
+            stats["events"] += n_ev
+            n_chain = len(w.args) - 1
+            stats["chain_lengths"][str(n_chain)] = stats["chain_lengths"].get(str(n_chain), 0) + 1
+            R = np.transpose(W[:, 1:, 1:], (0, 2, 1))
+            block = max(np.abs(W[:, 0, 0] - 1).max(), np.abs(W[:, 0, 1:]).max(), np.abs(W[:, 1:, 0]).max())
+            orth = np.abs(np.einsum("nij,nkj->nik", R, R) - np.eye(3)).max()
+            det = np.abs(np.linalg.det(R) - 1).max()
+            worst = float(max(block, orth, det))
+            stats["worst_orthogonality"] = max(stats["worst_orthogonality"], worst)
+            chk.count(("wigner-oracle", str(top), sid))
+            if not worst < 1e-7:
+                chk.failing_input({"class": "wigner-matrix-not-a-rotation"},
+                                  {"input": {"topology": str(top), "state": sid, "masses": masses.tolist(),
+                                             "event0": [a[0].tolist() for a in arrays]},
+                                   "observed": {"block": float(block), "orthogonality": float(orth), "det-1": float(det)},
+                                   "expected": "W = 1 (+) R, R proper rotation (C04_wigner_matrix_is_rotation)"})
+                continue
+            ok = np.abs(W[:, 3, 3]) < 1 - 1e-6
+            stats["gimbal_skipped"] += int((~ok).sum())
+            E = np.einsum("nij,njk,nkl->nil", rz(np.asarray(al, dtype=float)), ry(np.asarray(be, dtype=float)),
+                          rz(np.asarray(ga, dtype=float)))
+            dev = float(np.abs(E - R)[ok].max()) if ok.any() else 0.0
+            stats["worst_euler"] = max(stats["worst_euler"], dev)
+            if not dev < 1e-6:
+                k = int(np.argmax(np.abs(E - R).reshape(len(R), -1).max(1) * ok))
+                chk.failing_input({"class": "wigner-angles-not-euler-angles"},
+                                  {"input": {"topology": str(top), "state": sid, "masses": masses.tolist(),
+                                             "event": [a[k].tolist() for a in arrays]},
+                                   "observed": {"alpha": float(al[k]), "beta": float(be[k]), "gamma": float(ga[k]),
+                                                "max|Rz(a)Ry(b)Rz(g) - spat(W)^T|": dev},
+                                   "expected": "spat(W)^T = Rz(alpha)Ry(beta)Rz(gamma) (C04_wigner_angles_are_euler_angles)"})
+    return stats
 
 
 class C04Property:
@@ -336,6 +466,15 @@ class C04Property:
             chk.broken_correspondence("frame-chain model", f"Lean model failed: {e}"[:800])
         except Exception as e:  # noqa: BLE001  the real code raised on a valid topology
             chk.broken_correspondence("frame-chain correspondence",
+                                      "".join(traceback.format_exception(type(e), e, e.__traceback__))[-1200:])
+
+        # ---- Wigner-rotation oracle: the statements of Props/C04Wigner.lean evaluated on the REAL lambdified
+        # compute_wigner_rotation_matrix / compute_wigner_angles (search for a failing input; never the tie)
+        try:
+            wstats = wigner_oracle(chk, common.rng_for(PROP_ID, seed, "wigner"), tier)
+            chk.info("wigner_rotation_oracle", wstats)
+        except Exception as e:  # noqa: BLE001
+            chk.broken_correspondence("wigner-rotation oracle",
                                       "".join(traceback.format_exception(type(e), e, e.__traceback__))[-1200:])
 
         # ---- the oracle: the property statement itself on the real code (always)
@@ -612,6 +751,14 @@ MANIFEST = {
         "homomorphism UP TO THE SIGN (if the Euler rotations compose, the D^{1/2} compose up to +-), the sign is real (a full turn flips D^{1/2}, "
         "not D^1), hence no representation of rotation MATRICES with weight 1/2 exists; unitarity of e^{-ima} d^J e^{-im'g} for all J <= 5/2 from the "
         "d-tables regenerated by C05 (J = 3/2, 2 stated separately). "
+        "(R, Props/C04Wigner.lean) the Wigner rotation of the axis-angle alignment, UNBOUNDED in the depth of the decay chain: a proper Lorentz "
+        "matrix fixing the time axis is 1 (+) R with R a proper rotation; compute_wigner_rotation_matrix = B(-p).B_1...B_n over the REGENERATED "
+        "explicit boost matrices (Gen/C08) with the wiring of compute_boost_chain is 1 (+) R^T, R a proper rotation, whenever every momentum the "
+        "chain boosts with is time-like with non-zero three-momentum (induction over the chain; uses the C08 boost theorems: Lorentz, det 1, symmetric, "
+        "rest frame, inverse); the three expressions REGENERATED from compute_wigner_angles (alpha = atan2(W32,W31), beta = acos(W33), gamma = "
+        "atan2(W23,-W13)) are ZYZ Euler angles of that rotation off the gimbal-lock set W33^2 < 1 (euler_decomposition, for EVERY proper rotation), "
+        "so W = 1 (+) (Rz(alpha)Ry(beta)Rz(gamma))^T; the chain wiring of every final state of every topology is compared with the real expression "
+        "trees (line protocol `wchain`), which entries are sliced is a checked fact. "
         "(W) the pinned source's convention for a decaying opposite-helicity child rephases the couplings by e^{2 i lambda delta} (proved); the "
         "executable model classifies 0(12) as such a topology and (01)2,(02)1 as not; the atan2 branch cut (Phi = pi on the negative x axis, phi just "
         "above, -phi just below, continuation 2pi - phi) flips the sign of D^{1/2} and not of D^1 — the mechanism of the half-integer axis-angle class. "
